@@ -63,7 +63,14 @@ func (w *world) build(ps putSpec, vals map[string]sim.Value) built {
 	case "ok":
 		b.sig = w.sign(kp, ps.Salt, ps.Seq, ps.Val)
 	case "osalt":
-		b.sig = w.sign(kp, otherOf([]string{"s1", "s1b", "s0"}, ps.Salt), ps.Seq, ps.Val)
+		// valid for another salt -- in particular for no salt at all (salt stripping)
+		var others []string
+		for _, x := range []string{"s0", "s1", "s1b", "s64"} {
+			if x != ps.Salt {
+				others = append(others, x)
+			}
+		}
+		b.sig = w.sign(kp, others[int(uint64(ps.Seq)%3+uint64(len(ps.Val)))%len(others)], ps.Seq, ps.Val)
 	case "oseq":
 		o := ps.Seq + 1
 		if ps.Seq == math.MaxInt64 {
